@@ -81,6 +81,9 @@ pub enum Fate {
     /// blocks its thread for a while with 33..160 further commands queued behind the blocking one:
     /// the system's Stop command arrives at the end of a long queue
     BusyBacklog { ms: u8, n: u8 },
+    /// created through `Arbiter::with_tokio_rt` with a runtime factory of its own; `slow`: the
+    /// factory takes 1.1 s (the arbiter must be registered before the constructor returns all the same)
+    CustomRt { slow: bool },
 }
 
 #[derive(Clone, Copy, Debug, Serialize, Deserialize, PartialEq)]
@@ -108,6 +111,10 @@ pub struct C09Case {
     /// use `run()` instead of `run_with_code()`
     pub plain_run: bool,
     pub jitter: [u16; 3],
+    /// with a sequenced second stop issued from a thread of the system: an arbiter is created
+    /// between the two stop calls (it exists before the second stop is issued)
+    #[serde(default)]
+    pub arbiter_between: bool,
 }
 
 struct SlowDrop(u8);
@@ -150,7 +157,15 @@ fn run_c09(c: &C09Case) -> CaseResult {
     let mut slots = vec![];
     let wrong_system = Arc::new(AtomicBool::new(false));
     for fate in &c.arbiters {
-        let arb = Arbiter::new();
+        let arb = match *fate {
+            Fate::CustomRt { slow } => Arbiter::with_tokio_rt(move || {
+                if slow {
+                    thread::sleep(Duration::from_millis(1100));
+                }
+                tokio::runtime::Builder::new_current_thread().enable_all().build().unwrap()
+            }),
+            _ => Arbiter::new(),
+        };
         let flag = Arc::new(AtomicBool::new(false));
         let f2 = flag.clone();
         let ws = wrong_system.clone();
@@ -223,12 +238,21 @@ fn run_c09(c: &C09Case) -> CaseResult {
     let live_at_stop = slots.iter().filter(|s| !matches!(s.fate, Fate::StoppedJoined)).count();
     // issue the stop(s)
     let (code, second) = (c.code, c.second);
+    let between: Arc<Mutex<Vec<Arbiter>>> = Arc::new(Mutex::new(vec![]));
+    // only where both stops and the registration in between are queued before the system's
+    // controller task can run (issued from the system thread): from another thread the first stop
+    // may already have ended `run`, after which nobody processes the second one
+    let want_between = c.arbiter_between && matches!(second, Some(Second::Sequenced { .. })) && matches!(c.from, StopFrom::SystemBeforeRun | StopFrom::SystemTask);
     let issue = {
         let j1 = c.jitter[1];
+        let between = between.clone();
         move |sys: System| {
             sys.stop_with_code(code);
             if let Some(Second::Sequenced { code: c2 }) = second {
                 jitter(j1 % 64);
+                if want_between && System::try_current().is_some() {
+                    between.lock().unwrap().push(Arbiter::new());
+                }
                 sys.stop_with_code(c2);
             }
         }
@@ -325,6 +349,13 @@ fn run_c09(c: &C09Case) -> CaseResult {
             }
         }
     }
+    let extra: Vec<Arbiter> = between.lock().unwrap().drain(..).collect();
+    let had_between = !extra.is_empty();
+    for a in extra {
+        if join_timeout(a, WATCHDOG).is_err() {
+            return Err(Fail::new("C09/arbiter-not-stopped", format!("an arbiter created between the first and the second stop_with_code call existed when the second stop was issued, but its join() did not return within {:?}", WATCHDOG)));
+        }
+    }
     if wrong_system.load(Ordering::SeqCst) {
         return Err(Fail::new("C09/wrong-system", "System::current() on an arbiter thread is not the creating system"));
     }
@@ -337,6 +368,9 @@ fn run_c09(c: &C09Case) -> CaseResult {
     obs.label_if(matches!(from, StopFrom::Foreign), "stop-from-foreign-thread");
     obs.label_if(c.code != 0, "nonzero-code");
     obs.label_if(c.arbiters.iter().any(|f| matches!(f, Fate::BusyBacklog { .. })), "stop-behind-long-queue");
+    obs.label_if(had_between, "arbiter-created-between-two-stops");
+    obs.label_if(c.arbiters.iter().any(|f| matches!(f, Fate::CustomRt { .. })), "with_tokio_rt");
+    obs.label_if(c.arbiters.iter().any(|f| matches!(f, Fate::CustomRt { slow: true })), "slow-runtime-factory");
     Ok(obs)
 }
 
@@ -382,6 +416,12 @@ pub struct C10Case {
     /// another System has been created, run and stopped on this OS thread before
     #[serde(default)]
     pub prior_system: bool,
+    /// the thread arbiter is created through `Arbiter::with_tokio_rt`
+    #[serde(default)]
+    pub custom_rt: bool,
+    /// the sender threads belong to another System (each creates one of its own before sending)
+    #[serde(default)]
+    pub foreign_senders: bool,
 }
 
 #[derive(Clone, Debug)]
@@ -456,7 +496,13 @@ fn run_c10(c: &C10Case) -> CaseResult {
     let sys = System::current();
     let sys_id = sys.id();
     let sh = Arc::new(Shared { next_id: AtomicUsize::new(0), next_nested: AtomicUsize::new(NESTED), starts: Mutex::new(vec![]), after_stop: Mutex::new(vec![]), wrong: Mutex::new(vec![]), stop_sent: AtomicBool::new(false) });
-    let arb = if c.system_arbiter { None } else { Some(Arbiter::new()) };
+    let arb = if c.system_arbiter {
+        None
+    } else if c.custom_rt {
+        Some(Arbiter::with_tokio_rt(|| tokio::runtime::Builder::new_current_thread().enable_all().build().unwrap()))
+    } else {
+        Some(Arbiter::new())
+    };
     let handle = match &arb {
         Some(a) => a.handle(),
         None => sys.arbiter().clone(),
@@ -485,7 +531,10 @@ fn run_c10(c: &C10Case) -> CaseResult {
     for _ in 1..nsend {
         let (stx, srx) = mpsc::channel::<SenderCmd>();
         sender_tx.push(Some(stx));
+        let foreign = c.foreign_senders;
         sender_threads.push(thread::spawn(move || {
+            // a second System in the process: this thread's current System is not the arbiter's
+            let _other = if foreign { Some(System::new()) } else { None };
             while let Ok(SenderCmd::Do(f)) = srx.recv() {
                 f();
             }
@@ -836,6 +885,8 @@ fn run_c10(c: &C10Case) -> CaseResult {
     obs.label_if(syncs > 0, "sync");
     obs.label_if(c.system_arbiter, "system-arbiter");
     obs.label_if(c.prior_system, "second-system-on-this-thread");
+    obs.label_if(c.custom_rt && !c.system_arbiter, "with_tokio_rt");
+    obs.label_if(c.foreign_senders && nsend >= 2, "senders-of-another-system");
     obs.label_if(c.prior_system && c.system_arbiter && c.ops.iter().any(|(_, o)| matches!(o, COp::Spawn { k: Kind::Nested })), "current-arbiter-used-in-second-system");
     obs.label_if(!after.is_empty(), "sent-after-stop");
     obs.nontrivial = (sends_total >= 3 && had_stop && !after.is_empty()) || nsend >= 2 || labels.contains(&"panic-or-pend-task");
@@ -858,6 +909,8 @@ pub mod gen {
             2 => any::<u8>().prop_map(|ms| Fate::BusyBlock { ms }),
             3 => any::<u8>().prop_map(|ms| Fate::StoppedSlowTeardown { ms }),
             3 => (any::<u8>(), any::<u8>()).prop_map(|(ms, n)| Fate::BusyBacklog { ms, n }),
+            // one in about 25 of these is slow (1.1 s of real time per case)
+            3 => (0u8..25).prop_map(|k| Fate::CustomRt { slow: k == 0 }),
         ]
     }
 
@@ -873,14 +926,15 @@ pub mod gen {
             prop::option::weighted(0.5, prop_oneof![2 => code().prop_map(|code| Second::Sequenced { code }), 1 => code().prop_map(|code| Second::Racing { code })]),
             prop::bool::weighted(0.25),
             [0u16..300, 0u16..300, 0u16..300],
+            prop::bool::weighted(0.5),
         )
-            .prop_map(|(arbiters, from, code, second, plain_run, jitter)| {
+            .prop_map(|(arbiters, from, code, second, plain_run, jitter, arbiter_between)| {
                 // a sequenced second stop with the same code cannot be told apart
                 let second = match second {
                     Some(Second::Sequenced { code: c2 }) if c2 == code => Some(Second::Sequenced { code: code.wrapping_add(5) }),
                     s => s,
                 };
-                C09Case { arbiters, from, code, second, plain_run, jitter }
+                C09Case { arbiters, from, code, second, plain_run, jitter, arbiter_between }
             })
     }
 
@@ -904,7 +958,7 @@ pub mod gen {
             1 => Just(COp::Stop),
             1 => any::<u8>().prop_map(|n| COp::Burst { n }),
         ];
-        (prop::collection::vec((0u8..3, op), 1..12), 1u8..4, prop::bool::weighted(0.3), [0u16..300, 0u16..600], prop::bool::weighted(0.4))
-            .prop_map(|(ops, senders, system_arbiter, jitter, prior_system)| C10Case { ops, senders, system_arbiter, jitter, prior_system })
+        (prop::collection::vec((0u8..3, op), 1..12), 1u8..4, prop::bool::weighted(0.3), [0u16..300, 0u16..600], prop::bool::weighted(0.4), prop::bool::weighted(0.3), prop::bool::weighted(0.3))
+            .prop_map(|(ops, senders, system_arbiter, jitter, prior_system, custom_rt, foreign_senders)| C10Case { ops, senders, system_arbiter, jitter, prior_system, custom_rt, foreign_senders })
     }
 }
